@@ -336,6 +336,7 @@ class Interp(object):
         self.entry_writes = []
         self.label_alias = {}
         self.decided = {}
+        self.str_methods = {}
         from . import lib
         self.lib = lib
 
@@ -1282,6 +1283,9 @@ class Interp(object):
         if isinstance(o, (Num, Arr, View, Masked)):
             return self.lib.num_attr(self, o, name, node)
         if isinstance(o, Const) and isinstance(o.v, str):
+            hook = self.str_methods.get(name)
+            if hook is not None:
+                return Native('str.' + name, hook, o)
             return Native('str.' + name, lambda ip, s, a, k, n: Const('<str>'), o)
         if isinstance(o, Seq):
             return self.lib.seq_attr(self, o, name, node)
